@@ -24,7 +24,6 @@ import (
 	sql "github.com/metrico/qryn/reader/utils/sql_select"
 
 	"verif/mc/fakesql"
-	"verif/mc/readerharness"
 )
 
 const probeEnv = "VERIF_C13_PROBE"
@@ -129,7 +128,7 @@ func probeChild() {
 	// answers every query with no rows) ----
 	var mu sync.Mutex
 	var seen []string
-	h := readerharness.New(func(_ context.Context, q string, _ []driver.NamedValue) (*fakesql.Result, error) {
+	h := newReaderSide(func(_ context.Context, q string, _ []driver.NamedValue) (*fakesql.Result, error) {
 		mu.Lock()
 		seen = append(seen, q)
 		mu.Unlock()
